@@ -53,6 +53,76 @@ func must(err error) {
 	}
 }
 
+// oldCase wraps a case of Model/C32.v into the harness's case type (Model/C32_Tmp.v: xcase).
+func oldCase(term string) string { return "(Old " + term + ")" }
+
+// ---- the harness never dies silently ----------------------------------------------------------
+// Every stage that can panic (a helper that does not behave, a reference build that fails, cp, strace ...)
+// runs under guard: the panic is recorded with the name of the stage and the input it was working on, the
+// stage is retried once where that makes sense, and what still fails is REPORTED at the end as a failing
+// input of class harness-stage-failed-<stage> - the run goes on and report.json is always written.
+
+type stageFail struct {
+	Stage  string `json:"stage"`
+	Detail string `json:"detail"`
+	Input  any    `json:"input"`
+}
+
+var (
+	stageMu    sync.Mutex
+	stageFails []stageFail
+	stageRetry = map[string]int{}
+)
+
+// try runs f and returns the text of its panic, if any.
+func try(f func()) (failure string, failed bool) {
+	defer func() {
+		if r := recover(); r != nil {
+			buf := make([]byte, 4096)
+			buf = buf[:runtime.Stack(buf, false)]
+			failure, failed = tailStr(fmt.Sprint(r), 1500)+"\n"+tailStr(string(buf), 1200), true
+		}
+	}()
+	f()
+	return "", false
+}
+
+func guard(stage string, input any, f func()) bool {
+	if d, failed := try(f); failed {
+		stageMu.Lock()
+		stageFails = append(stageFails, stageFail{stage, d, input})
+		stageMu.Unlock()
+		return false
+	}
+	return true
+}
+
+// guardRetry: one more attempt when the first one panics (kills of a multi-threaded process under strace and
+// builds on a loaded machine are not perfectly repeatable); only the second failure is reported.
+func guardRetry(stage string, input any, f func()) bool {
+	if _, failed := try(f); !failed {
+		return true
+	}
+	stageMu.Lock()
+	stageRetry[stage]++
+	stageMu.Unlock()
+	return guard(stage, input, f)
+}
+
+func reportStages(c *lib.Ctx) {
+	stageMu.Lock()
+	defer stageMu.Unlock()
+	for st, n := range stageRetry {
+		c.Note("stage %s: %d first attempts failed and were retried", st, n)
+	}
+	for _, f := range stageFails {
+		c.Oracle()
+		c.Hist("harness-stage-failed", f.Stage)
+		c.Fail("harness-stage-failed-"+f.Stage, "the harness could not complete stage "+f.Stage+": "+tailStr(f.Detail, 400),
+			map[string]any{"kind": "stage", "stage": f.Stage, "detail": f.Detail, "input": f.Input})
+	}
+}
+
 // =============================================================================================
 // Part W: fs.WriteFile
 
@@ -299,13 +369,19 @@ func partW(c *lib.Ctx, base string) func() {
 		defer close(done)
 		for i := range cfgs {
 			cfgs[i].Dir = filepath.Join(base, fmt.Sprintf("w%d", i))
-			wPrepare(cfgs[i])
-			fin, _, out := wRun(cfgs[i], nil)
-			if !fin {
-				panic("WriteFile helper failed without injection: " + out)
+			var calls []callPoint
+			if !guardRetry("writefile-reference-run", map[string]any{"kind": "writefile", "w": cfgs[i]}, func() {
+				wPrepare(cfgs[i])
+				fin, _, out := wRun(cfgs[i], nil)
+				if !fin {
+					panic("WriteFile helper failed without injection: " + out)
+				}
+				var err error
+				calls, err = wCalls(filepath.Join(cfgs[i].Dir, "strace.log"))
+				must(err)
+			}) {
+				continue
 			}
-			calls, err := wCalls(filepath.Join(cfgs[i].Dir, "strace.log"))
-			must(err)
 			var names []string
 			for _, cp := range calls {
 				names = append(names, cp.Name)
@@ -315,7 +391,7 @@ func partW(c *lib.Ctx, base string) func() {
 				// the syscall sequence of WriteFile is not the model's step list: report it as a disagreement
 				i, names := i, names
 				seqCases = append(seqCases, func() {
-					c.Case(lib.App("CWrite", lib.Bool(cfgs[i].DirExists), "None", "[]", "0%N", lib.Nat(999), "None", "None"),
+					c.Case(oldCase(lib.App("CWrite", lib.Bool(cfgs[i].DirExists), "None", "[]", "0%N", lib.Nat(999), "None", "None")),
 						map[string]any{"kind": "writefile", "w": cfgs[i], "syscalls": names, "model": wModelNames(cfgs[i])}, fmt.Sprint("wseq", i), true)
 				})
 				noModel = true
@@ -338,13 +414,17 @@ func partW(c *lib.Ctx, base string) func() {
 			go func(j *wJob) {
 				defer wg.Done()
 				defer func() { <-sem }()
-				wPrepare(j.W)
-				fin, killed, out := wRun(j.W, j.At)
-				j.Fin, j.Killed = fin, killed
-				if (j.At != nil) != killed || (j.At == nil) != fin {
-					j.Err = "helper: finished=" + fmt.Sprint(fin) + " killed=" + fmt.Sprint(killed) + " " + out
-				}
-				j.Obs = wObserve(j.W)
+				j.Err = "not run"
+				guardRetry("writefile-crash-injection", map[string]any{"kind": "writefile", "w": j.W, "k": j.K, "at": j.At}, func() {
+					wPrepare(j.W)
+					fin, killed, out := wRun(j.W, j.At)
+					j.Fin, j.Killed = fin, killed
+					if (j.At != nil) != killed || (j.At == nil) != fin {
+						panic("crash injection did not behave: helper: finished=" + fmt.Sprint(fin) + " killed=" + fmt.Sprint(killed) + " " + out)
+					}
+					j.Obs = wObserve(j.W)
+					j.Err = ""
+				})
 				os.RemoveAll(j.W.Dir)
 			}(j)
 		}
@@ -362,7 +442,7 @@ func partW(c *lib.Ctx, base string) func() {
 				js["killed_at"] = j.At.Text
 			}
 			if j.Err != "" {
-				panic("crash injection did not behave: " + j.Err)
+				continue // reported by reportStages (stage writefile-crash-injection)
 			}
 			if j.Killed {
 				kills++
@@ -372,7 +452,7 @@ func partW(c *lib.Ctx, base string) func() {
 				old = coqWFile(&wFile{*j.W.Old, j.W.OldMode})
 			}
 			dirEx := j.W.DirExists || j.W.Old != nil
-			c.Case(lib.App("CWrite", lib.Bool(dirEx), old, lib.StrList(j.W.Chunks), lib.N(uint64(j.W.Mode)), lib.Nat(j.K), coqWFile(j.Obs.Dest), coqWFile(j.Obs.Tmp)),
+			c.Case(oldCase(lib.App("CWrite", lib.Bool(dirEx), old, lib.StrList(j.W.Chunks), lib.N(uint64(j.W.Mode)), lib.Nat(j.K), coqWFile(j.Obs.Dest), coqWFile(j.Obs.Tmp))),
 				js, fmt.Sprint("w", j.W.DirExists, j.W.Old != nil, j.W.Chunks, j.W.Mode, j.K), j.K > 0 && j.At != nil)
 			c.Hist("writefile-step", map[bool]string{true: "killed", false: "complete"}[j.Killed])
 			// oracle: the destination holds the old content or the complete new content (with the requested mode)
@@ -1027,22 +1107,29 @@ func prepareRepo(r *lib.Rng, base string, idx int, spec *e2e.Spec) (*repoResult,
 	refs := map[string]*cleanRef{}
 	var refsMu sync.Mutex
 	var refsWG sync.WaitGroup
+	refErr := "" // a panic in the goroutines below would kill the process: they report here instead
 	for name, s := range map[string]*e2e.Spec{"1": spec, "2": spec2} {
 		refsWG.Add(1)
 		cl := repo.CleanCopy(base, "clean"+name, s) // before repo.Plz is pointed at the strace wrapper
 		go func(name string, s *e2e.Spec, cl *e2e.Repo) {
 			defer refsWG.Done()
-			res := cl.Run(120*time.Second, append([]string{"build"}, labels...)...)
-			ref := &cleanRef{Outputs: e2e.TargetOutputs(cl, s, labels), Obs: map[string]*Obs{}, Exit: res.Exit}
-			for _, ti := range tis {
-				ref.Obs[ti.Label] = observe(cl.Dir, ti, true)
+			if d, failed := try(func() {
+				res := cl.Run(120*time.Second, append([]string{"build"}, labels...)...)
+				ref := &cleanRef{Outputs: e2e.TargetOutputs(cl, s, labels), Obs: map[string]*Obs{}, Exit: res.Exit}
+				for _, ti := range tis {
+					ref.Obs[ti.Label] = observe(cl.Dir, ti, true)
+				}
+				if res.Exit != 0 {
+					panic(fmt.Sprintf("clean build of a generated repository failed (exit %d): %s", res.Exit, tailStr(res.Stderr+res.Stdout, 1200)))
+				}
+				refsMu.Lock()
+				refs[name] = ref
+				refsMu.Unlock()
+			}); failed {
+				refsMu.Lock()
+				refErr += "clean reference build " + name + ": " + d + "\n"
+				refsMu.Unlock()
 			}
-			if res.Exit != 0 {
-				panic(fmt.Sprintf("clean build of a generated repository failed: %s", res.Stderr+res.Stdout))
-			}
-			refsMu.Lock()
-			refs[name] = ref
-			refsMu.Unlock()
 			os.RemoveAll(cl.Dir)
 		}(name, s, cl)
 	}
@@ -1067,7 +1154,7 @@ func prepareRepo(r *lib.Rng, base string, idx int, spec *e2e.Spec) (*repoResult,
 			js := map[string]any{"kind": "trace", "repo": idx, "build": tag, "label": ti.Label, "spec": s, "before": before[ti.Label], "steps": steps}
 			key := fmt.Sprint("trace", idx, tag, ti.Label)
 			rr.cases = append(rr.cases, func(c *lib.Ctx) {
-				c.Case(term, js, key, true)
+				c.Case(oldCase(term), js, key, true)
 				c.Hist("trace-steps", strconv.Itoa(len(steps)))
 			})
 		}
@@ -1089,9 +1176,13 @@ func prepareRepo(r *lib.Rng, base string, idx int, spec *e2e.Spec) (*repoResult,
 	res := repo.Run(180*time.Second, append([]string{"build"}, labels...)...)
 	rr.nplz++
 	if res.Exit != 0 {
-		panic("first build under strace failed: " + res.Stderr + res.Stdout)
+		refsWG.Wait()
+		panic(fmt.Sprintf("first build under strace failed (exit %d): %s", res.Exit, tailStr(res.Stderr+res.Stdout, 1200)))
 	}
 	refsWG.Wait()
+	if refErr != "" {
+		panic(refErr)
+	}
 	emitTrace(log1, refs["1"], emptyObs, "first", spec)
 	for _, ti := range tis {
 		observe(repo.Dir, ti, true)
@@ -1106,7 +1197,7 @@ func prepareRepo(r *lib.Rng, base string, idx int, spec *e2e.Spec) (*repoResult,
 	res = repo.Run(180*time.Second, append([]string{"build"}, labels...)...)
 	rr.nplz++
 	if res.Exit != 0 {
-		panic("rebuild under strace failed: " + res.Stderr + res.Stdout)
+		panic(fmt.Sprintf("rebuild under strace failed (exit %d): %s", res.Exit, tailStr(res.Stderr+res.Stdout, 1200)))
 	}
 	emitTrace(log2, refs["2"], obsA, "edit", spec2)
 	os.Remove(repo.Plz)
@@ -1243,7 +1334,7 @@ func runJob(pr *prepared, ji int, job crashJob, base string) *repoResult {
 			key := fmt.Sprint("crash", idx, ji, pi, ti.Label)
 			moved := fmt.Sprint(ph.before[ti.Label].coq()) != fmt.Sprint(sk.coq())
 			rr.cases = append(rr.cases, func(c *lib.Ctx) {
-				c.Case(term, cjs, key, moved)
+				c.Case(oldCase(term), cjs, key, moved)
 				c.Hist("decision", decision)
 				if moved {
 					c.Hist("crash-state", "target-caught-mid-build")
@@ -1503,9 +1594,21 @@ func partP(c *lib.Ctx, base string) {
 		go func(i int) {
 			defer wg.Done()
 			defer func() { <-sem }()
-			dir := fmt.Sprintf("%s/r%d", base, i)
-			must(os.MkdirAll(dir, 0o755))
-			results[i], preps[i] = prepareRepo(plans[i].r, dir, i, plans[i].spec)
+			attempt := 0
+			if !guardRetry("reference-and-traced-builds", map[string]any{"kind": "plz", "repo": i, "spec": plans[i].spec, "scenario": "first", "point": Point{Mode: "none"}}, func() {
+				attempt++
+				dir := fmt.Sprintf("%s/r%d", base, i)
+				if attempt > 1 {
+					os.RemoveAll(dir)
+				}
+				must(os.MkdirAll(dir, 0o755))
+				results[i], preps[i] = nil, nil
+				// every attempt draws from its own copy of the stream, so that a retry builds the same repository
+				r := *plans[i].r
+				results[i], preps[i] = prepareRepo(&r, dir, i, plans[i].spec)
+			}) {
+				results[i], preps[i] = &repoResult{}, nil
+			}
 		}(i)
 	}
 	wg.Wait()
@@ -1516,6 +1619,9 @@ func partP(c *lib.Ctx, base string) {
 	}
 	var jrs []*jr
 	for i := range plans {
+		if preps[i] == nil {
+			continue // reported by reportStages
+		}
 		for j := range plans[i].jobs {
 			jrs = append(jrs, &jr{i: i, j: j})
 		}
@@ -1527,8 +1633,14 @@ func partP(c *lib.Ctx, base string) {
 			defer wg.Done()
 			defer func() { <-sem }()
 			dir := fmt.Sprintf("%s/r%d/j%d", base, x.i, x.j)
-			must(os.MkdirAll(dir, 0o755))
-			x.rr = runJob(preps[x.i], x.j, plans[x.i].jobs[x.j], dir)
+			job := plans[x.i].jobs[x.j]
+			x.rr = &repoResult{}
+			guardRetry("crash-job", map[string]any{"kind": "plz", "repo": x.i, "job": x.j, "spec": plans[x.i].spec, "scenario": job.Scenario, "point": job.Point, "point2": job.Point2}, func() {
+				os.RemoveAll(dir)
+				must(os.MkdirAll(dir, 0o755))
+				x.rr = &repoResult{}
+				x.rr = runJob(preps[x.i], x.j, job, dir)
+			})
 			os.RemoveAll(dir)
 		}(x)
 	}
@@ -1547,6 +1659,676 @@ func partP(c *lib.Ctx, base string) {
 	}
 	c.Note("plz timing: reference and traced builds %.1fs, crash jobs %.1fs", tPrep.Seconds(), (time.Since(tStart) - tPrep).Seconds())
 	c.Note("plz: %d repositories, %d plz invocations, %d crash jobs in which plz was killed, %d in which the chosen point was not reached (plz finished; the oracle still ran)", len(plans), nplz, nkill, nno)
+}
+
+// =============================================================================================
+// Part T: the work directory plz-out/tmp/<target>._build and leftover-sensitive build commands
+//
+// One genrule in the root package whose command is a program of the closed language of Model/C32_Tmp.v
+// (cat x > f, cat x >> f, mkdir f, rmdir f, rm -f f, [ -e f ] || { ... }) with SYNC points between its simple
+// commands. A sync point is `{ [ ! -e $C/stop.N ] || { : > $C/reached.N; sleep 30; exit 97; }; }` with
+// C = <repository>/.c32ctl: the harness creates stop.N, starts `plz build`, waits for reached.N, and SIGKILLs
+// plz (its process group) and then the command (its process group: plz starts it with Setpgid, the command wrote
+// its $$ to $C/pid) - so plz AND its children die while the command is between two of its own writes, at a
+// chosen, repeatable point. Then the work directory is read, possibly a second build is killed the same way at
+// another point, and a normal `plz build` runs; its outputs are compared with a clean build in a fresh directory.
+
+type TArg struct {
+	Kind string `json:"kind"` // src | lit | file
+	V    string `json:"v"`
+}
+
+type TStep struct {
+	Op string `json:"op"` // write | append | mkdir | rmdir | remove | skipifexists | sync
+	F  string `json:"f,omitempty"`
+	A  *TArg  `json:"a,omitempty"`
+	N  int    `json:"n,omitempty"` // skipifexists: how many of the following non-sync steps the guard covers; sync: its number
+}
+
+type TSpec struct {
+	Shape string      `json:"shape"`
+	Name  string      `json:"name"`
+	Srcs  [][2]string `json:"srcs"` // name, content (in $SRCS order)
+	Cmd   []TStep     `json:"cmd"`
+	Outs  []string    `json:"outs"`
+}
+
+func (a *TArg) sh() string {
+	switch a.Kind {
+	case "src", "file":
+		return "cat " + a.V
+	case "lit":
+		return "printf %s " + shq(a.V)
+	}
+	panic("unknown arg kind " + a.Kind)
+}
+
+func shq(x string) string { return "'" + strings.ReplaceAll(x, "'", `'\''`) + "'" }
+
+func (a *TArg) coq() string {
+	switch a.Kind {
+	case "src":
+		return lib.App("ASrc", lib.Str(a.V))
+	case "lit":
+		return lib.App("ALit", lib.Str(a.V))
+	}
+	return lib.App("AFile", lib.Str(a.V))
+}
+
+func (st TStep) sh() string {
+	switch st.Op {
+	case "write":
+		return st.A.sh() + " > " + st.F
+	case "append":
+		return st.A.sh() + " >> " + st.F
+	case "mkdir":
+		return "mkdir " + st.F
+	case "rmdir":
+		return "rmdir " + st.F
+	case "remove":
+		return "rm -f " + st.F
+	case "sync":
+		return fmt.Sprintf("{ [ ! -e $C/stop.%d ] || { : > $C/reached.%d; sleep 30; exit 97; }; }", st.N, st.N)
+	}
+	panic("unknown op " + st.Op)
+}
+
+// shell renders the command; the guard of a skipifexists covers the next N non-sync steps (and the sync points between them).
+func (t *TSpec) shell() string {
+	parts := []string{"C=$TMP_DIR/../../../.c32ctl", "mkdir -p $C", "echo $$ > $C/pid"}
+	for i := 0; i < len(t.Cmd); i++ {
+		st := t.Cmd[i]
+		if st.Op != "skipifexists" {
+			parts = append(parts, st.sh())
+			continue
+		}
+		var inner []string
+		left := st.N
+		j := i + 1
+		for ; j < len(t.Cmd) && left > 0; j++ {
+			if t.Cmd[j].Op == "skipifexists" {
+				panic("nested guard")
+			}
+			inner = append(inner, t.Cmd[j].sh())
+			if t.Cmd[j].Op != "sync" {
+				left--
+			}
+		}
+		if len(inner) == 0 {
+			inner = []string{":"}
+		}
+		parts = append(parts, "{ [ -e "+st.F+" ] || { "+strings.Join(inner, " && ")+"; }; }")
+		i = j - 1
+	}
+	return strings.Join(parts, " && ")
+}
+
+func (t *TSpec) coqCmd() string {
+	var out []string
+	for _, st := range t.Cmd {
+		switch st.Op {
+		case "write":
+			out = append(out, lib.App("Write", lib.Str(st.F), st.A.coq()))
+		case "append":
+			out = append(out, lib.App("Append", lib.Str(st.F), st.A.coq()))
+		case "mkdir":
+			out = append(out, lib.App("Mkdir", lib.Str(st.F)))
+		case "rmdir":
+			out = append(out, lib.App("Rmdir", lib.Str(st.F)))
+		case "remove":
+			out = append(out, lib.App("Remove", lib.Str(st.F)))
+		case "skipifexists":
+			out = append(out, lib.App("SkipIfExists", lib.Str(st.F), lib.Nat(st.N)))
+		}
+	}
+	return lib.List(out)
+}
+
+// position of sync point n = the number of the command's own steps before it
+func (t *TSpec) syncPos(n int) int {
+	k := 0
+	for _, st := range t.Cmd {
+		if st.Op == "sync" {
+			if st.N == n {
+				return k
+			}
+			continue
+		}
+		k++
+	}
+	return -1
+}
+
+func (t *TSpec) syncs() []int {
+	var out []int
+	for _, st := range t.Cmd {
+		if st.Op == "sync" {
+			out = append(out, st.N)
+		}
+	}
+	return out
+}
+
+func (t *TSpec) write(dir string) {
+	must(os.MkdirAll(filepath.Join(dir, ".c32ctl"), 0o755))
+	must(os.WriteFile(filepath.Join(dir, ".plzconfig"), []byte("[build]\npath = /usr/local/bin:/usr/bin:/bin\n[cache]\ndir = \n[display]\nupdatetitle = false\n"), 0o644))
+	var names []string
+	for _, kv := range t.Srcs {
+		names = append(names, kv[0])
+		must(os.WriteFile(filepath.Join(dir, kv[0]), []byte(kv[1]), 0o644))
+	}
+	q := func(xs []string) string {
+		var o []string
+		for _, x := range xs {
+			o = append(o, strconv.Quote(x))
+		}
+		return "[" + strings.Join(o, ", ") + "]"
+	}
+	build := fmt.Sprintf("genrule(\n    name = %s,\n    srcs = %s,\n    outs = %s,\n    cmd = %s,\n)\n", strconv.Quote(t.Name), q(names), q(t.Outs), strconv.Quote(t.shell()))
+	must(os.WriteFile(filepath.Join(dir, "BUILD"), []byte(build), 0o644))
+}
+
+func (t *TSpec) tmpDir(dir string) string {
+	return filepath.Join(dir, "plz-out", "tmp", t.Name+"._build")
+}
+
+type TNode struct {
+	Dir  bool   `json:"dir,omitempty"`
+	Data string `json:"data,omitempty"`
+}
+
+type TObs struct {
+	State   string           `json:"state"` // absent | notdir | dir
+	Entries map[string]TNode `json:"entries,omitempty"`
+	Other   []string         `json:"other,omitempty"` // the links to the sources - not part of the model's directory
+}
+
+func (t *TSpec) observeTmp(dir string) TObs {
+	p := t.tmpDir(dir)
+	info, err := os.Lstat(p)
+	if err != nil {
+		return TObs{State: "absent"}
+	}
+	if !info.IsDir() {
+		return TObs{State: "notdir"}
+	}
+	o := TObs{State: "dir", Entries: map[string]TNode{}}
+	isSrc := map[string]bool{}
+	for _, kv := range t.Srcs {
+		isSrc[kv[0]] = true
+	}
+	es, _ := os.ReadDir(p)
+	for _, e := range es {
+		fi, err := os.Lstat(filepath.Join(p, e.Name()))
+		if err != nil {
+			continue
+		}
+		switch {
+		case isSrc[e.Name()] || fi.Mode()&os.ModeSymlink != 0: // the sources: hard links (or symbolic links) made by prepareSources
+			o.Other = append(o.Other, e.Name())
+		case fi.IsDir():
+			o.Entries[e.Name()] = TNode{Dir: true}
+		default:
+			d, _ := os.ReadFile(filepath.Join(p, e.Name()))
+			o.Entries[e.Name()] = TNode{Data: string(d)}
+		}
+	}
+	return o
+}
+
+func (o TObs) coq() string {
+	switch o.State {
+	case "absent":
+		return "TAbsent"
+	case "notdir":
+		return "TNotDir"
+	}
+	var es []string
+	for _, n := range lib.SortedKeys(o.Entries) {
+		e := o.Entries[n]
+		if e.Dir {
+			es = append(es, lib.Pair(lib.Str(n), "NDir"))
+		} else {
+			es = append(es, lib.Pair(lib.Str(n), lib.App("NFile", lib.Str(e.Data))))
+		}
+	}
+	return lib.App("TDir", lib.List(es))
+}
+
+// tOutputs reads the declared outputs from plz-out/gen (nil when one is missing)
+func (t *TSpec) outputs(dir string) (map[string]string, string) {
+	out := map[string]string{}
+	for _, o := range t.Outs {
+		p := filepath.Join(dir, "plz-out", "gen", o)
+		fi, err := os.Lstat(p)
+		if err != nil {
+			return nil, "output " + o + " is missing"
+		}
+		if !fi.Mode().IsRegular() {
+			return nil, "output " + o + " is not a regular file"
+		}
+		d, _ := os.ReadFile(p)
+		out[o] = string(d)
+	}
+	return out, ""
+}
+
+type tRun struct {
+	Exit    int
+	Out     string
+	Reached bool
+	Killed  bool
+}
+
+func killGroup(pid int) {
+	if pid <= 1 {
+		return
+	}
+	syscall.Kill(-pid, syscall.SIGKILL)
+	syscall.Kill(pid, syscall.SIGKILL)
+	for i := 0; i < 400; i++ {
+		if err := syscall.Kill(-pid, 0); err != nil {
+			return
+		}
+		time.Sleep(5 * time.Millisecond)
+	}
+}
+
+func cmdPid(dir string) int {
+	d, err := os.ReadFile(filepath.Join(dir, ".c32ctl", "pid"))
+	if err != nil {
+		return 0
+	}
+	n, _ := strconv.Atoi(strings.TrimSpace(string(d)))
+	return n
+}
+
+// tRunPlz runs `plz build //:name`; stopAt >= 0: the command stops at that sync point, and plz and the command are killed there.
+func (t *TSpec) runPlz(dir string, stopAt int) tRun {
+	plz := os.Getenv("VERIF_PLZ")
+	if plz == "" {
+		plz = "/verif/build/bin/plz"
+	}
+	ctl := filepath.Join(dir, ".c32ctl")
+	os.Remove(filepath.Join(ctl, "pid"))
+	stop, reached := filepath.Join(ctl, fmt.Sprintf("stop.%d", stopAt)), filepath.Join(ctl, fmt.Sprintf("reached.%d", stopAt))
+	if stopAt >= 0 {
+		os.Remove(reached)
+		must(os.WriteFile(stop, nil, 0o644))
+		defer os.Remove(stop)
+		defer os.Remove(reached)
+	}
+	cmd := exec.Command(plz, "--plain_output", "-v", "1", "build", "//:"+t.Name)
+	cmd.Dir = dir
+	cmd.Env = plzEnv
+	cmd.SysProcAttr = &syscall.SysProcAttr{Setpgid: true}
+	var buf strings.Builder
+	cmd.Stdout, cmd.Stderr = &buf, &buf
+	must(cmd.Start())
+	done := make(chan error, 1)
+	go func() { done <- cmd.Wait() }()
+	res := tRun{}
+	finish := func(err error) {
+		if err != nil {
+			if ee, ok := err.(*exec.ExitError); ok {
+				res.Exit = ee.ExitCode()
+			} else {
+				res.Exit = -1
+			}
+		}
+	}
+	deadline := time.After(150 * time.Second)
+	tick := time.NewTicker(2 * time.Millisecond)
+	defer tick.Stop()
+	for {
+		select {
+		case err := <-done:
+			finish(err)
+			res.Out = buf.String()
+			killGroup(cmdPid(dir)) // nothing of the command may outlive the build
+			return res
+		case <-deadline:
+			syscall.Kill(-cmd.Process.Pid, syscall.SIGKILL)
+			<-done
+			killGroup(cmdPid(dir))
+			panic("plz build did not finish within 150 s: " + tailStr(buf.String(), 600))
+		case <-tick.C:
+			if stopAt < 0 {
+				continue
+			}
+			if _, err := os.Stat(reached); err != nil {
+				continue
+			}
+			res.Reached = true
+			pid := cmdPid(dir)
+			// plz first (a plz that sees its command die would clean up after it), then the command and its children
+			syscall.Kill(-cmd.Process.Pid, syscall.SIGKILL)
+			finish(<-done)
+			killGroup(pid)
+			res.Killed = true
+			res.Out = buf.String()
+			return res
+		}
+	}
+}
+
+type tJob struct {
+	Spec    *TSpec `json:"tspec"`
+	History []int  `json:"history"` // sync points at which successive builds are killed
+}
+
+type tResult struct {
+	job     tJob
+	clean   map[string]string
+	cleanOK bool
+	cleanLog string
+	reached []bool
+	tmpObs  []TObs
+	rec     tRun
+	recOut  map[string]string
+	recWhy  string
+	again   tRun
+	againOut map[string]string
+	nplz    int
+}
+
+var tCleanMu sync.Mutex
+
+func runTJob(base string, j tJob, cleanOf func(*TSpec) (map[string]string, bool, string)) *tResult {
+	r := &tResult{job: j}
+	r.clean, r.cleanOK, r.cleanLog = cleanOf(j.Spec)
+	dir := filepath.Join(base, "repo")
+	must(os.MkdirAll(dir, 0o755))
+	j.Spec.write(dir)
+	for _, n := range j.History {
+		run := j.Spec.runPlz(dir, n)
+		r.nplz++
+		r.reached = append(r.reached, run.Killed)
+		r.tmpObs = append(r.tmpObs, j.Spec.observeTmp(dir))
+	}
+	r.rec = j.Spec.runPlz(dir, -1)
+	r.nplz++
+	if r.rec.Exit == 0 {
+		r.recOut, r.recWhy = j.Spec.outputs(dir)
+	}
+	r.again = j.Spec.runPlz(dir, -1)
+	r.nplz++
+	if r.again.Exit == 0 {
+		r.againOut, _ = j.Spec.outputs(dir)
+	}
+	return r
+}
+
+func tSpecs(c *lib.Ctx) []*TSpec {
+	src := func(n string) *TArg { return &TArg{"src", n} }
+	file := func(n string) *TArg { return &TArg{"file", n} }
+	lit := func(x string) *TArg { return &TArg{"lit", x} }
+	sync := func(n int) TStep { return TStep{Op: "sync", N: n} }
+	ab := [][2]string{{"a.txt", "alpha\n"}, {"b.txt", "beta\n"}}
+	abc := [][2]string{{"a.txt", "alpha\n"}, {"b.txt", "beta\n"}, {"c.txt", "gamma\n"}}
+	specs := []*TSpec{
+		// append to a scratch file in the work directory, then copy to the output
+		{Shape: "append-scratch", Name: "app", Srcs: abc, Outs: []string{"all.txt"}, Cmd: []TStep{
+			{Op: "append", F: "acc", A: src("a.txt")}, sync(1), {Op: "append", F: "acc", A: src("b.txt")}, sync(2),
+			{Op: "append", F: "acc", A: src("c.txt")}, sync(3), {Op: "write", F: "all.txt", A: file("acc")}, sync(4)}},
+		// the classic `for s in $SRCS; do cat $s >> $OUT; done` (the seeded mutation's demo)
+		{Shape: "append-out", Name: "cat", Srcs: ab, Outs: []string{"all.txt"}, Cmd: []TStep{
+			{Op: "append", F: "all.txt", A: src("a.txt")}, sync(1), {Op: "append", F: "all.txt", A: src("b.txt")}, sync(2)}},
+		// mkdir without -p as a lock
+		{Shape: "mkdir-lock", Name: "lock", Srcs: ab, Outs: []string{"all.txt"}, Cmd: []TStep{
+			{Op: "mkdir", F: "lock.d"}, sync(1), {Op: "write", F: "all.txt", A: src("a.txt")}, sync(2),
+			{Op: "append", F: "all.txt", A: src("b.txt")}, {Op: "rmdir", F: "lock.d"}, sync(3)}},
+		// [ -e gen.txt ] || generate it (non-atomically), then use it
+		{Shape: "test-e-guard", Name: "guard", Srcs: ab, Outs: []string{"all.txt"}, Cmd: []TStep{
+			{Op: "skipifexists", F: "gen.txt", N: 2}, {Op: "write", F: "gen.txt", A: src("a.txt")}, sync(1), {Op: "append", F: "gen.txt", A: src("b.txt")},
+			sync(2), {Op: "write", F: "all.txt", A: file("gen.txt")}, sync(3)}},
+		// two outputs, a stamp file guarding the second half
+		{Shape: "stamp-two-outs", Name: "two", Srcs: ab, Outs: []string{"one.txt", "two.txt"}, Cmd: []TStep{
+			{Op: "append", F: "one.txt", A: lit("head\n")}, sync(1), {Op: "append", F: "one.txt", A: src("a.txt")}, {Op: "write", F: "stamp", A: lit("x")}, sync(2),
+			{Op: "skipifexists", F: "two.txt", N: 1}, {Op: "write", F: "two.txt", A: src("b.txt")}, sync(3)}},
+		// control: a command that cleans up before it appends is not leftover-sensitive
+		{Shape: "robust-control", Name: "robust", Srcs: ab, Outs: []string{"all.txt"}, Cmd: []TStep{
+			{Op: "remove", F: "acc"}, {Op: "append", F: "acc", A: src("a.txt")}, sync(1), {Op: "append", F: "acc", A: src("b.txt")}, sync(2),
+			{Op: "write", F: "all.txt", A: file("acc")}}},
+	}
+	// random programs of the language (every one ends by writing the output from the scratch file)
+	for i, n := 0, c.Scale(3, 40); i < n; i++ {
+		r := c.Rng.Fork()
+		t := &TSpec{Shape: "random", Name: fmt.Sprintf("rnd%d", i), Srcs: abc, Outs: []string{"all.txt"}}
+		files := []string{"acc", "tmp1", "all.txt"}
+		srcs := []string{"a.txt", "b.txt", "c.txt"}
+		ns := 0
+		nsteps := r.Range(2, 6)
+		for k := 0; k < nsteps; k++ {
+			var st TStep
+			switch r.Intn(10) {
+			case 0, 1, 2, 3:
+				st = TStep{Op: "append", F: lib.Pick(r, files), A: src(lib.Pick(r, srcs))}
+			case 4:
+				st = TStep{Op: "append", F: lib.Pick(r, files), A: lit(lib.Pick(r, []string{"x", "--\n"}))}
+			case 5:
+				st = TStep{Op: "write", F: lib.Pick(r, files), A: src(lib.Pick(r, srcs))}
+			case 6:
+				st = TStep{Op: "mkdir", F: lib.Pick(r, []string{"d1", "d2"})}
+			case 7:
+				st = TStep{Op: "remove", F: lib.Pick(r, files)}
+			case 8:
+				st = TStep{Op: "skipifexists", F: lib.Pick(r, []string{"acc", "tmp1", "d1"}), N: 1}
+				t.Cmd = append(t.Cmd, st)
+				st = TStep{Op: "append", F: lib.Pick(r, files), A: src(lib.Pick(r, srcs))}
+			default:
+				st = TStep{Op: "append", F: "acc", A: src(lib.Pick(r, srcs))}
+			}
+			t.Cmd = append(t.Cmd, st)
+			ns++
+			t.Cmd = append(t.Cmd, sync(ns))
+		}
+		t.Cmd = append(t.Cmd, TStep{Op: "append", F: "acc", A: lit("end\n")}, TStep{Op: "append", F: "all.txt", A: file("acc")})
+		specs = append(specs, t)
+	}
+	return specs
+}
+
+func partT(c *lib.Ctx, base string) func() {
+	var jobs []tJob
+	var replay struct {
+		Kind    string `json:"kind"`
+		TSpec   *TSpec `json:"tspec"`
+		History []int  `json:"history"`
+		Input   *struct {
+			TSpec   *TSpec `json:"tspec"`
+			History []int  `json:"history"`
+		} `json:"input"`
+	}
+	if c.ReadReplay(&replay) {
+		if replay.TSpec == nil && replay.Input != nil { // a stage failure wraps the job
+			replay.TSpec, replay.History = replay.Input.TSpec, replay.Input.History
+		}
+		if replay.TSpec == nil {
+			return func() {}
+		}
+		jobs = []tJob{{replay.TSpec, replay.History}}
+	} else {
+		for _, t := range tSpecs(c) {
+			sy := t.syncs()
+			r := c.Rng.Fork()
+			if t.Shape == "random" {
+				// one single kill and one double kill per random program
+				jobs = append(jobs, tJob{t, []int{lib.Pick(r, sy)}}, tJob{t, []int{lib.Pick(r, sy), lib.Pick(r, sy)}})
+				continue
+			}
+			for _, n := range sy {
+				jobs = append(jobs, tJob{t, []int{n}})
+			}
+			// two kills in a row: the second build meets what the first left
+			jobs = append(jobs, tJob{t, []int{sy[0], sy[len(sy)-1]}})
+			if c.Thor {
+				jobs = append(jobs, tJob{t, []int{sy[len(sy)/2], sy[0]}})
+				for i := 0; i < 4; i++ {
+					jobs = append(jobs, tJob{t, []int{lib.Pick(r, sy), lib.Pick(r, sy), lib.Pick(r, sy)}})
+				}
+			}
+		}
+	}
+	// clean reference builds, one per spec (fresh directory)
+	type cl struct {
+		once sync.Once
+		out  map[string]string
+		ok   bool
+		log  string
+	}
+	cleans := map[*TSpec]*cl{}
+	var nclean int
+	for _, j := range jobs {
+		if cleans[j.Spec] == nil {
+			cleans[j.Spec] = &cl{}
+		}
+	}
+	cleanOf := func(t *TSpec) (map[string]string, bool, string) {
+		e := cleans[t]
+		e.once.Do(func() {
+			tCleanMu.Lock()
+			nclean++
+			dir := filepath.Join(base, fmt.Sprintf("tclean%d", nclean), "repo")
+			tCleanMu.Unlock()
+			must(os.MkdirAll(dir, 0o755))
+			t.write(dir)
+			run := t.runPlz(dir, -1)
+			e.log = tailStr(run.Out, 600)
+			if run.Exit == 0 {
+				e.out, _ = t.outputs(dir)
+				e.ok = e.out != nil
+			}
+			os.RemoveAll(filepath.Dir(dir))
+		})
+		return e.out, e.ok, e.log
+	}
+	results := make([]*tResult, len(jobs))
+	done := make(chan struct{})
+	tStart := time.Now()
+	go func() {
+		defer close(done)
+		var wg sync.WaitGroup
+		sem := make(chan struct{}, 4)
+		for i := range jobs {
+			wg.Add(1)
+			sem <- struct{}{}
+			go func(i int) {
+				defer wg.Done()
+				defer func() { <-sem }()
+				dir := filepath.Join(base, fmt.Sprintf("t%d", i))
+				guardRetry("work-directory-job", map[string]any{"kind": "tmpdir", "tspec": jobs[i].Spec, "history": jobs[i].History}, func() {
+					os.RemoveAll(dir)
+					must(os.MkdirAll(dir, 0o755))
+					results[i] = nil
+					results[i] = runTJob(dir, jobs[i], cleanOf)
+				})
+				os.RemoveAll(dir)
+			}(i)
+		}
+		wg.Wait()
+	}()
+	return func() {
+		<-done
+		wall := time.Since(tStart)
+		nplz, nkilled, nmiss := 0, 0, 0
+		for i, r := range results {
+			if r == nil {
+				continue // reported by reportStages
+			}
+			j := r.job
+			t := j.Spec
+			nplz += r.nplz
+			js := map[string]any{"kind": "tmpdir", "tspec": t, "history": j.History, "command": t.shell(), "reached": r.reached, "work_dir_after_kills": r.tmpObs,
+				"recovery_exit": r.rec.Exit, "recovery_outputs": r.recOut, "clean_outputs": r.clean, "clean_ok": r.cleanOK}
+			if r.rec.Exit != 0 {
+				js["recovery_output"] = tailStr(r.rec.Out, 800)
+			}
+			// ---- model side: the kills that happened since the last build that ran to its end
+			var ks []string
+			anyKill := false
+			for hi, n := range j.History {
+				if r.reached[hi] {
+					ks = append(ks, lib.Nat(t.syncPos(n)))
+					anyKill = true
+					nkilled++
+				} else {
+					ks = nil // the sync point was not reached (guarded away): that build ran to its end and cleaned up
+					nmiss++
+				}
+			}
+			obsTmp := TObs{State: "absent"}
+			if len(r.tmpObs) > 0 {
+				obsTmp = r.tmpObs[len(r.tmpObs)-1]
+			}
+			obsOut := "None"
+			if r.rec.Exit == 0 && r.recOut != nil {
+				var kv []string
+				for _, o := range t.Outs {
+					kv = append(kv, lib.Pair(lib.Str(o), lib.Str(r.recOut[o])))
+				}
+				obsOut = lib.Some(lib.List(kv))
+			}
+			var srcs []string
+			for _, kv := range t.Srcs {
+				srcs = append(srcs, lib.Pair(lib.Str(kv[0]), lib.Str(kv[1])))
+			}
+			term := "(Tmp " + lib.App("CTmp", lib.List(srcs), t.coqCmd(), lib.StrList(t.Outs), lib.List(ks), obsTmp.coq(), obsOut) + ")"
+			leftovers := obsTmp.State == "dir" && len(obsTmp.Entries) > 0
+			c.Case(term, js, fmt.Sprint("tmp", t.Shape, t.Name, j.History), anyKill && leftovers)
+			c.Hist("workdir-shape", t.Shape)
+			c.Hist("workdir-kills", fmt.Sprint(len(ks)))
+			if leftovers {
+				c.Hist("workdir-after-kill", "leftovers")
+			} else {
+				c.Hist("workdir-after-kill", "empty-or-absent")
+			}
+			// ---- oracle: the build after the kills equals the clean build (or fails exactly when the clean build fails)
+			c.Oracle()
+			what := fmt.Sprintf("//:%s (%s), plz and its command killed at sync point(s) %v of `%s`", t.Name, t.Shape, j.History, t.shell())
+			switch {
+			case !r.cleanOK && r.rec.Exit != 0:
+				// the command fails in a fresh directory as well: nothing to compare
+				c.Hist("workdir-clean", "clean-build-fails-too")
+			case !r.cleanOK:
+				c.Fail("work-directory-leftovers-make-failing-build-succeed", what+": the clean build fails but the build after the kill succeeds", js)
+			case r.rec.Exit != 0:
+				c.Fail("work-directory-leftovers-break-next-build", what+": the next build fails (exit "+fmt.Sprint(r.rec.Exit)+") where a clean build succeeds: "+tailStr(firstLineOr(r.rec.Out, "rror"), 300), js)
+			case r.recOut == nil:
+				c.Fail("work-directory-leftovers-break-next-build", what+": the next build succeeds but "+r.recWhy, js)
+			default:
+				bad := ""
+				for _, o := range t.Outs {
+					if r.recOut[o] != r.clean[o] {
+						bad = fmt.Sprintf("%s is %q, the clean build gives %q", o, r.recOut[o], r.clean[o])
+						break
+					}
+				}
+				if bad != "" {
+					c.Fail("work-directory-leftovers-reused-by-next-build", what+": "+bad+" (and it is recorded as up to date)", js)
+				} else if r.again.Exit != 0 || r.againOut == nil {
+					c.Fail("work-directory-third-build-fails", what+": the build after the recovery build fails", js)
+				} else {
+					for _, o := range t.Outs {
+						if r.againOut[o] != r.clean[o] {
+							c.Fail("work-directory-third-build-differs", what+": a further build changes "+o, js)
+							break
+						}
+					}
+				}
+			}
+			_ = i
+		}
+		c.Note("work directory: %d jobs (%d specs), %d plz invocations + %d clean builds, %d kills of plz and its command at a sync point, %d sync points not reached (guarded away), %.1fs",
+			len(jobs), len(cleans), nplz, nclean, nkilled, nmiss, wall.Seconds())
+	}
+}
+
+func firstLineOr(s, containing string) string {
+	if l := firstLine(s, containing); l != "" {
+		return l
+	}
+	return strings.TrimSpace(tailStr(s, 300))
 }
 
 func dumpCorpus(dir string) {
@@ -1586,19 +2368,30 @@ func main() {
 		return
 	}
 	lib.Main("C32", func(c *lib.Ctx) {
-		c.Model("From PlzV Require Import Model.C32.", "C32.case", "C32.check")
+		c.Model("From PlzV Require Import Model.C32 Model.C32_Tmp.", "C32_Tmp.xcase", "C32_Tmp.xcheck")
 		c.Rule("(W) fs.WriteFile in a helper process killed by strace on entry to each of its mutating syscalls (directory present/absent, destination present/absent, 0-3 chunks, modes); " +
 			"(P) generated repositories (3-6 targets: 1-3 file outputs, directory outputs, one output_dirs target, text_file, dependencies between them) built by the real plz, killed by strace on entry to a chosen syscall on a chosen plz-out path, " +
 			"at the N-th call of a syscall class, or by SIGKILL after a random delay - during the first build, the rebuild after a content edit, a --rebuild of the up-to-date tree, and twice in a row - followed by a normal build compared with a clean build of the same tree; " +
 			"per target and kill the state found on disk is checked to be a prefix state of the model and the model's decision to be what plz did; the syscall trace of every uninterrupted build is compared with the model's step list. " +
-			"distinct = distinct (repository, job, target) / WriteFile (configuration, step); non-trivial = the kill happened and changed the target's files (or: a WriteFile step > 0)")
+			"(T) one genrule whose command is a program of the model's language of leftover-sensitive shell commands (>> append to a scratch file then copy to the output, >> to the output, mkdir without -p, [ -e x ] || generate, stamp files, a robust control, random programs) with sync points between its simple commands: plz AND the running command are SIGKILLed while the command waits at a chosen sync point, once or several times in a row, the work directory plz-out/tmp/<target>._build is read and compared with the model's, then a normal build runs and is compared with a clean build and with the model's prediction. " +
+			"distinct = distinct (repository, job, target) / WriteFile (configuration, step) / (command, kill history); non-trivial = the kill happened and changed the target's files (or: a WriteFile step > 0; or: the kill left files in the work directory)")
 		if _, err := exec.LookPath("strace"); err != nil {
 			panic("strace is required: " + err.Error())
 		}
 		base := e2e.Scratch("c32")
 		defer os.RemoveAll(base)
-		reportW := partW(c, base)
-		partP(c, base)
-		reportW()
+		// whatever happens below, the report is written and says which stage failed
+		if d, failed := try(func() {
+			reportW := partW(c, base)
+			reportT := partT(c, base)
+			partP(c, base)
+			reportW()
+			reportT()
+		}); failed {
+			stageMu.Lock()
+			stageFails = append(stageFails, stageFail{"main", d, nil})
+			stageMu.Unlock()
+		}
+		reportStages(c)
 	})
 }
